@@ -1,4 +1,5 @@
 """C02 — static resources: the right file, its exact bytes, its media type.
+(second generator audit: props/c02_features.py, props/c02_live.py, the second half of vlib/gen_c02.py; table in audit/C02/AUDIT2.md)
 Oracle (implementation only): the documented lookup (file, else <dir>/index.html, else
 <path>.html) evaluated directly on the generated tree (vlib/gen_c02.py `spec`: path resolution as
 the kernel does it, links to files and directories included); body byte-identical to that file;
@@ -6,6 +7,7 @@ Content-Type from an independent extension table; Content-Length = size; 404 wit
 not-found page (never another file's content) when the lookup selects nothing."""
 import re
 from vlib import common as C, serve as S, reqgen as G, strict_http as H, servecheck as K, gen_c02 as X
+from props import c02_features as F2, c02_live as LV
 
 DRIVERS = ['Serve', 'Mime']   # model driver files this check runs: scopes translator failures to the tables they (and the proofs) import
 TRUSTED = ['Linux file system semantics for the generated trees (real files through the harness)']
@@ -13,7 +15,11 @@ ASSUMPTIONS = ['independent extension->type table (vlib/servecheck.py EXT_TYPES 
                'cases the documented lookup does not determine (trailing slash on a file, names file-ext refuses, percent-encoded names, links with absolute targets or '
                'leaving the root, links inside linked directories, the routes the chain answers before the static controller, requests that do not fit the request buffer, '
                'conditional request headers, malformed request lines) are compared model-vs-code only',
-               'legacy entry point: judged on the common domain only (a plain file named exactly, no query, no fragment)']
+               'legacy entry point: judged on the common domain only (a plain file named exactly, no query, no fragment)',
+               'second audit pass: a body in a content coding the request itself asked for (Accept-Encoding) is compared after decoding (gzip, deflate) and its Content-Length is not judged; '
+               'a conditional request is judged only when its condition cannot hold for the selected file (a date before the file\'s own, an invented entity tag, If-Range without Range) or has to be '
+               'ignored (not an HTTP-date); requests that arrive in one read are judged answer by answer as far as answers come; interim (1xx) answers are skipped; '
+               'scenarios with modification times, locks, special files and files that change between two answers run on the real code only (props/c02_live.py), without the model']
 WITH_MODEL = True
 
 STATUS = dict(H.REASONS)
@@ -183,11 +189,31 @@ def check_hit(res, c, resp, sp, variant, pre=''):
         res.fail(pre + 'lookup-miss' + (':' + variant if variant else ''), c.line[:300], f'status {resp["status"]}', None,
                  f'C02: GET {c.target[:200]!r} should serve {rel[:200]!r} ({len(content)} bytes) but was answered {resp["status"]}')
         return
-    if resp['body'] != content:
-        res.fail(pre + 'wrong-bytes', c.line[:300], f'{len(resp["body"])} bytes, first difference at {first_diff(resp["body"], content)}', None,
+    body, coded = resp['body'], None
+    ce = [x.strip().lower() for v in H.get(resp['headers'], 'Content-Encoding') for x in v.split(',') if x.strip() and x.strip().lower() != 'identity']
+    if ce:
+        # a content coding the request asked for: the statement's "body" is what the coding carries.  Without such a request, or with a coding
+        # nobody asked for, the bytes on the wire have to be the file's
+        if len(ce) == 1 and accepts_coding(c, ce[0]):
+            if ce[0] in ('gzip', 'x-gzip', 'deflate'):
+                coded = ce[0]
+                try:
+                    import zlib
+                    body = zlib.decompress(body, 47 if coded != 'deflate' else 15)
+                except Exception:      # noqa
+                    try: body = zlib.decompress(resp['body'], -15)
+                    except Exception: body = None      # noqa
+                if body is None:
+                    res.fail(pre + 'wrong-bytes', c.line[:300], f'Content-Encoding {coded}, {len(resp["body"])} bytes that do not decode', None,
+                             f'C02: body of GET {c.target[:200]!r} is labelled {coded} and does not decode: it is not {rel[:200]!r}')
+                    return
+            else:
+                res.count('not judged: body in a content coding the request asked for and this check cannot decode (%s)' % ce[0]); return
+    if body != content:
+        res.fail(pre + 'wrong-bytes', c.line[:300], f'{len(body)} bytes' + (f' (after decoding {coded})' if coded else '') + f', first difference at {first_diff(body, content)}', None,
                  f'C02: body of GET {c.target[:200]!r} is not byte-identical to {rel[:200]!r} ({len(content)} bytes)')
     cl = H.get(resp['headers'], 'Content-Length')
-    if cl != [str(len(content))]:
+    if not coded and cl != [str(len(content))]:
         res.fail(pre + 'wrong-content-length', c.line[:300], str(cl), None, f'C02: Content-Length {cl} for a file of {len(content)} bytes')
     ext = K.ext_of(rel)
     # whether a link is typed by its own name or by its target's is not stated: judged when the two carry the same extension
@@ -197,6 +223,21 @@ def check_hit(res, c, resp, sp, variant, pre=''):
         ct = H.get(resp['headers'], 'Content-Type')
         if len(ct) != 1 or ct[0] not in want:
             res.fail(pre + 'wrong-media-type', c.line[:300], str(ct), None, f'C02: {rel[:200]!r} labelled {ct}, expected {sorted(want)}')
+
+def accepts_coding(c, coding):
+    """does the request list this content coding (or *) in Accept-Encoding with a quality other than 0? (read leniently)"""
+    names = {'x-gzip': ('gzip', 'x-gzip'), 'gzip': ('gzip', 'x-gzip')}.get(coding, (coding,))
+    for n, v in c.headers or ():
+        if str(n).lower() != 'accept-encoding': continue
+        for item in str(v).lower().split(','):
+            parts = [x.strip() for x in item.split(';')]
+            if parts[0] not in names and parts[0] != '*': continue
+            q = [x.split('=', 1)[1].strip() for x in parts[1:] if x.replace(' ', '').startswith('q=')]
+            try:
+                if q and float(q[0]) == 0: continue
+            except ValueError: pass
+            return True
+    return False
 
 def judge(res, results):
     for tr in {id(c.tree): c.tree for c, _, _, _ in results}.values():
@@ -210,7 +251,9 @@ def judge(res, results):
             if il != ml: res.disagree(c.line[:400], il[:300], ml[:300], 'StaticResourceController / lookup')
         if r['head'].startswith(('panic', 'abort')):
             # no answer at all.  Why the server must not panic is C04's; that a file the documented lookup selects was NOT returned is this property's
-            if c.note != 'model-only' and c.entry != 'preq' and c.method == 'GET':
+            if r['head'].startswith('abort not-run'):
+                res.count('not run: the process of this scenario had ended on an earlier case'); continue
+            if c.note != 'model-only' and not (c.note or '').startswith(F2.NOTJ) and c.entry != 'preq' and c.method == 'GET':
                 sp = X.spec_checked(c.tree, c.target.encode('utf-8', 'surrogateescape'))
                 if sp['kind'] == 'hit' and not sp['variant'] and not getattr(c.tree, 'cwd_refused', False) and not K.fragment_has_qmark(c.target.encode('utf-8', 'surrogateescape')):
                     res.fail('lookup-miss:no-answer', c.line[:300], r['head'][:200], None, f'C02: GET {c.target[:200]!r} should serve {sp["rel"][:200]!r}; the handler ended without an answer: {r["head"][:120]}')
@@ -218,8 +261,27 @@ def judge(res, results):
         if c.note == 'model-only':
             res.count('not judged: ' + c.entry + ' request outside the statement (conditional header, malformed or cut request)')
             continue
-        tb = c.target.encode('utf-8', 'surrogateescape')
-        raw = r['writes'][0] if r['writes'] else b''
+        if c.note and c.note.startswith(F2.NOTJ):
+            res.count(c.note); continue
+        # every buffer written counts (the answer is what the peer receives), and every answer on the connection: requests that arrived in
+        # one read are GETs of their own - whatever is answered in the k-th place has to be the answer to the k-th of them
+        sent = r['recv'] if not (c.ws or '').startswith('e:') else (r['writes'][0] if r['writes'] else b'')
+        targets = F2.STREAMS.get(c.raw) if c.entry == 'proc' else None
+        if targets is None:
+            judge_answer(res, c, X.split_answers(sent)[:1], c.target.encode('utf-8', 'surrogateescape'))
+        else:
+            answers = X.split_answers(sent)
+            res.count('requests in one read: %d answered' % min(len(answers), len(targets)))
+            for k, tg in enumerate(targets):
+                if k and k >= len(answers): break
+                judge_answer(res, c, answers[k:k + 1], tg.encode('utf-8', 'surrogateescape'), k)
+
+def judge_answer(res, c, answer, tb, k=0):
+    """one answer (as [(head, body)], or [] when nothing came) against the documented lookup for the target `tb`"""
+    raw = answer[0][0] + answer[0][1] if answer else b''
+    tshow = tb.decode('utf-8', 'replace')[:200]
+    nth = '' if not k else ' (request number %d of one read)' % (k + 1)
+    if True:
         if c.entry == 'preq':
             # the legacy chain serves plain files only; on the common domain (a regular file named exactly, no query, no fragment) the two entry points agree
             sp = X.spec_checked(c.tree, tb)
@@ -227,11 +289,11 @@ def judge(res, results):
                 resp, why = K.parse_resp(raw, STATUS)
                 if resp is None:
                     if raw and status_of(raw) != 200:
-                        res.fail('legacy-lookup-miss', c.line[:300], raw[:60].hex(), None, f'C02: legacy entry, GET {c.target[:200]!r} should serve {sp["rel"][:200]!r}: {why}')
-                    continue
+                        res.fail('legacy-lookup-miss', c.line[:300], raw[:60].hex(), None, f'C02: legacy entry, GET {tshow!r} should serve {sp["rel"][:200]!r}: {why}')
+                    return
                 res.count('spec hit (legacy entry, common domain)')
                 check_hit(res, c, resp, sp, None, 'legacy-')
-            continue
+            return
         sp = X.spec_checked(c.tree, tb)
         res.count('spec ' + sp['kind'] + (' ' + sp['why'] if sp['kind'] == 'unspecified' else '') + (' through a link' if sp.get('linked') else ''))
         resp, why = K.parse_resp(raw, STATUS)
@@ -239,21 +301,29 @@ def judge(res, results):
             # an answer the strict reader refuses: not a 200 / 404 at all?
             st = status_of(raw)
             if raw and sp['kind'] == 'hit' and st != 200 and not sp['variant'] and not getattr(c.tree, 'cwd_refused', False) and not K.fragment_has_qmark(tb):
-                res.fail('lookup-miss:unreadable-answer', c.line[:300], raw[:60].hex(), None, f'C02: GET {c.target[:200]!r} should serve {sp["rel"][:200]!r}; answer: {why}')
+                res.fail('lookup-miss:unreadable-answer', c.line[:300], raw[:60].hex(), None, f'C02: GET {tshow!r}{nth} should serve {sp["rel"][:200]!r}; answer: {why}')
             elif raw and sp['kind'] == 'miss' and st != 404:
-                res.fail('miss-not-404', c.line[:300], raw[:60].hex(), None, f'C02: GET {c.target[:200]!r} selects nothing; answer: {why}')
-            continue
+                res.fail('miss-not-404', c.line[:300], raw[:60].hex(), None, f'C02: GET {tshow!r}{nth} selects nothing; answer: {why}')
+            return
         if sp['kind'] == 'hit':
             variant = 'cwd-refused' if getattr(c.tree, 'cwd_refused', False) else sp['variant'] if sp['variant'] else ('fragment-qmark' if K.fragment_has_qmark(tb) else None)
+            if variant is None and sp.get('linked'):
+                # the file behind a link has a name of its own: one that file-ext refuses (F43b) or that is not UTF-8 (F43c)
+                if any(ch in sp['rel'] for ch in b' \'"&|;'): variant = 'refused-char-behind-link'
+                else:
+                    try: sp['rel'].decode('utf-8')
+                    except UnicodeDecodeError: variant = 'non-utf8-behind-link'
+            if k:
+                c = K.Case(**{a: getattr(c, a) for a in K.Case.__slots__}); c.target = tshow + nth
             check_hit(res, c, resp, sp, variant)
         elif sp['kind'] == 'miss':
             if resp['status'] != 404:
-                res.fail('miss-not-404', c.line[:300], f'status {resp["status"]}', None, f'C02: GET {c.target[:200]!r} selects nothing but was answered {resp["status"]}')
+                res.fail('miss-not-404', c.line[:300], f'status {resp["status"]}', None, f'C02: GET {tshow!r}{nth} selects nothing but was answered {resp["status"]}')
             own404 = c.tree.under_root().get(b'404.html')
             ok_body = (resp['body'] == own404) if own404 is not None else resp['body'].startswith(K.BUILTIN_404_PREFIX)
             if not ok_body:
                 res.fail('miss-body-not-notfound-page', c.line[:300], resp['body'][:60].hex(), None,
-                         f'C02: the 404 for {c.target[:200]!r} carries something other than the not-found page (a listing or another file)')
+                         f'C02: the 404 for {tshow!r}{nth} carries something other than the not-found page (a listing or another file)')
 
 def first_diff(a, b):
     for i, (x, y) in enumerate(zip(a, b)):
@@ -268,13 +338,24 @@ def run(res, tier, seed):
     batches = build(rng, tier)
     env, ebatches = build_env(rng, tier != 'quick')
     mlines, mmeta = mime_part.gen_lines(rng, tier)
+    # second audit pass: feature-style classes (a generator of their own, forked from the seed: the streams above stay what they were)
+    frng = rng.fork('c02-features')
+    import os
+    skip2 = bool(os.environ.get('C02_SKIP_AUDIT2'))          # (for timing the first-pass generator alone)
+    fbatches = [] if skip2 else F2.batches(frng, tier != 'quick')
+    if not skip2: ebatches = ebatches + [F2.env_batch(frng, tier != 'quick')]
+    scenarios = [] if skip2 else F2.scenarios(frng, tier != 'quick')
     out = {}
     ts = [threading.Thread(target=lambda: out.__setitem__('main', K.run_batches(batches, with_model=WITH_MODEL))),
           threading.Thread(target=lambda: out.__setitem__('env', K.run_batches(ebatches, with_model=WITH_MODEL, env=env))),
-          threading.Thread(target=lambda: out.__setitem__('mime', C.run_both(mlines)))]
+          threading.Thread(target=lambda: out.__setitem__('mime', C.run_both(mlines))),
+          threading.Thread(target=lambda: out.__setitem__('feat', K.run_batches(fbatches, with_model=WITH_MODEL))),
+          threading.Thread(target=lambda: out.__setitem__('live', LV.run_scenarios(scenarios)))]
     for t in ts: t.start()
     for t in ts: t.join()
-    results = out['main'] + out['env']
+    results = out['main'] + out['env'] + out['feat'] + [(c, r, None, None) for c, r, sc in out['live']]
+    for sc in scenarios:
+        if not sc.get('setup_ok'): res.notes.append('scenario %s: the harness refused the set-up lines' % sc.get('name'))
     judge(res, results)
     mimpl, mmodel = out['mime']
     mime_part.judge(res, mlines, mmeta, mimpl, mmodel)
@@ -286,6 +367,14 @@ def run(res, tier, seed):
                 'names of the built-in routes elsewhere, special / long / deep / non-ASCII names, links to directories, as index, as page, chains, dangling, loops, '
                 'same names at several levels, case twins; contents (NUL, blanks, line ends, encodings) and sizes around 4096..1 MiB blocks through all three steps; '
                 'one file per registered extension through the server; request headers, protocol versions, requests around the buffer size, buffer sizes, '
-                'served-directory names and a second configuration; repeated requests; distinct = (tree, entry, buffer, request)')
+                'served-directory names and a second configuration; repeated requests; '
+                'feature classes (vlib/gen_c02.py feature_tree, props/c02_features.py): precompressed side files (current, outdated, not the coding they claim, a directory, a pipe, alone) x Accept-Encoding; '
+                'neighbours a negotiating server would prefer (other type / language / density / colour scheme / minified) x Accept, Accept-Language, client hints; directories named like the Host, the '
+                'forwarded host, the proxy prefix x those headers; access-control and configuration files x Authorization; magic numbers x extensions; default documents, index twins, a directory of many '
+                'entries, names that are not UTF-8; chains of 39 and 40 links; conditional requests that cannot hold; long values of 2-, 3- and 4-byte characters in query, fragment and logged headers; '
+                'files as long as the request buffer; peers that take few bytes per write; several requests in one read (every answer); modification times (1970-, 2038+, 2106+, sub-second, directory '
+                'older than its index, link older than its target, side file older than its original), files locked by another process, special files next to the served ones, files that change '
+                'between two answers of one process (grown, shrunk, replaced, edited, deleted, created, renamed, link re-pointed, index / page appears and disappears, file <-> directory, not-found page) '
+                'with validators of the state before; distinct = (tree, entry, buffer, request)')
     for c, r, il, ml in results[:3]:
         res.sample({'entry': c.entry, 'target': c.target, 'status_line': r['recv'][:30].decode('latin1'), 'spec': str(X.spec_checked(c.tree, c.target.encode('utf-8', 'surrogateescape')).get('kind'))})
